@@ -85,7 +85,8 @@ def denote(notation, v):
 def type_ok(notation, v):
     a = repo.mod("geodepy.angles")
     if notation in ("rad", "dec", "hp", "gon"):
-        return isinstance(v, float) and type(v).__name__ in ("float", "float64")
+        import numpy as _np
+        return isinstance(v, (float, _np.floating)) and not isinstance(v, (a.DECAngle, a.GONAngle))
     return type(v) is {"deca": a.DECAngle, "hpa": a.HPAngle, "gona": a.GONAngle, "dms": a.DMSAngle, "ddm": a.DDMAngle}[notation]
 
 
